@@ -364,13 +364,22 @@ class ExcelCompiler:
             if not filename.endswith(pickle_extension):
                 filename += '.' + pickle_extension
 
-            if text_changed or not os.path.exists(filename):
+            # the pickle is current only if it was built from the current
+            # text, which is noted after the pickle data (ignored on load)
+            text_digest = self._compute_file_md5_digest(text_name).encode()
+            pickle_digest = None
+            if os.path.exists(filename):
+                with open(filename, 'rb') as f:
+                    pickle_digest = f.read()[-len(text_digest):]
+
+            if text_changed or pickle_digest != text_digest:
                 excel_compiler = self._from_text(text_name, is_json=is_json)
                 if non_pickle_extension not in file_types:
                     os.unlink(text_name)
 
                 with open(filename, 'wb') as f:
                     pickle.dump(excel_compiler, f)
+                    f.write(text_digest)
 
     @classmethod
     def from_file(cls, filename, plugins=None):
